@@ -750,7 +750,23 @@ impl Xot {
                         let to_remove = namespaces
                             .iter()
                             .filter_map(|(_, namespace_id)| {
-                                if fullname_serializer.is_namespace_known(*namespace_id)
+                                // the namespace has to stay reachable everywhere
+                                // below: through a prefix from the outer scope that
+                                // is not bound to something else on this element or
+                                // any of its descendants
+                                let reachable = fullname_serializer
+                                    .prefixes_for_namespace(*namespace_id)
+                                    .into_iter()
+                                    .any(|prefix| {
+                                        !self.descendants(node).any(|descendant| {
+                                            self.namespaces(descendant)
+                                                .get(prefix)
+                                                .map(|ns| ns != namespace_id)
+                                                .unwrap_or(false)
+                                        })
+                                    });
+                                if reachable
+                                    && fullname_serializer.is_namespace_known(*namespace_id)
                                     && deduplicate_tracker.is_safe_to_remove(*namespace_id)
                                 {
                                     Some(*namespace_id)
